@@ -34,14 +34,13 @@ int lha_arch_mkdir(char *path, unsigned int unix_perms) { (void) unix_perms; vg_
    times, with the callback_data they are given and arbitrary block numbers.  One invocation stands for all
    of them: the callback's output and memory safety are proved for every (block, num_blocks) and every
    callback_data in print.progress_callback; here it runs with the output obligations off (vg_quiet) and a
-   short progress bar (num_blocks <= 2) only to keep the callers' groups small - what the callers depend on
+   short progress bar (num_blocks == 2, block arbitrary) only to keep the callers' groups small - what the callers depend on
    is just that it sets progress->invoked. */
 static int vg_decode(LHADecoderProgressCallback callback, void *callback_data)
 {
 	__CPROVER_assert(callback == progress_callback, "C18 decode: the callback is progress_callback, which has its own group");
 	if (nondet_bool()) {
-		unsigned nb = nondet_uint();
-		__CPROVER_assume(nb <= 2);
+		unsigned nb = 2;   /* a constant, so that the bar loop unwinds to a constant */
 		vg_quiet++;
 		callback(nondet_uint(), nb, callback_data);
 		vg_quiet--;
